@@ -51,7 +51,7 @@ def instance(I, q_id, qd_id, nq, nv):
   return tau, ref
 
 
-def run(U, rep, tier):
+def force_law(U, rep, tier, rule='R11.1'):
   f = U.func(MOD + '.to_tau')
   I = new_interp(U.repo)
   avn.STRUCT_HOME['System'] = 'brax.base'
@@ -69,15 +69,20 @@ def run(U, rep, tier):
   for name, q_id, qd_id, nq, nv in cases:
     tau, ref = instance(I, q_id, qd_id, nq, nv)
     if same(tau, ref):
-      rep.ok('R11.1', name, construct='to_tau == scatter_add(gear*clip(gain*clip(ctrl)+bias))', where=f.where())
+      rep.ok(rule, name, construct='to_tau == scatter_add(gear*clip(gain*clip(ctrl)+bias))', where=f.where())
     else:
-      rep.fail('R11.1', name, 'to_tau differs from the actuator force law: ' + diff_report(tau, ref),
+      rep.fail(rule, name, 'to_tau differs from the actuator force law: ' + diff_report(tau, ref),
                where=f.where(), construct='to_tau')
   # no actuators: exactly zero
   sysd = Struct('System', {'actuator': Struct('Actuator', {}), 'nu': 0, 'nv': 3, 'nq': 3})
   tau = I.apply(fn(MOD, 'to_tau'), [sysd, symarr('u', (0,)), symarr('q', (3,)), symarr('qd', (3,))], {})
-  rep.check(same(tau, P_zeros((3,))), 'R11.1', 'no actuators -> zeros(nv)',
+  rep.check(same(tau, P_zeros((3,))), rule, 'no actuators -> zeros(nv)',
             'to_tau without actuators is not the zero vector of size nv', where=f.where())
+
+
+def run(U, rep, tier):
+  force_law(U, rep, tier)
+  f = U.func(MOD + '.to_tau')
   # the loader's actuator table, decided on values: load_model is abstractly executed on mock MuJoCo models
   # (integer / flag fields concrete, real fields symbolic) and every Actuator field is compared with the reference
   c14.loader_fields(U, rep, rule='R11.2', prefix='actuator.', label='loader:Actuator.')
